@@ -175,12 +175,19 @@ let p_handle (p : string) : string =
       | _ -> false in
     if known2 then Buffer.add_string b "known=C16-epoll-write-skipped-after-reregister;";
     if gok && not agree then Buffer.add_string b "theorem=VIOLATED-c16_backends_agree;";
+    (* per-descriptor guards of c16_backends_agree_per_descriptor *)
+    let okd = List.init n (fun i -> p_d_ok cfg (nat_of_int i) && p_ops_ok_d cfg (nat_of_int i) ops) in
+    (match !logs with
+     | [ls; le] -> List.iteri (fun i ok -> if ok && List.nth ls i <> List.nth le i then
+                                  Buffer.add_string b "theorem=VIOLATED-c16_backends_agree_per_descriptor;") okd
+     | _ -> ());
+    let nokd = List.length (List.filter (fun x -> x) okd) in
     Buffer.add_string b (Printf.sprintf "agree=%s;" (bool01 agree));
     let all = String.concat "," (List.concat !logs) in
     let has c = String.contains all c in
     Buffer.add_string b (Printf.sprintf "class=%s%s%s%s%s" cls
       (if has 'R' then "+r" else "") (if has 'W' then "+w" else "") (if has 'C' then "+c" else "")
-      (if agree then "" else "+differ") ^ (if gok then "+guards" else ""));
+      (if agree then "" else "+differ") ^ (if gok then "+guards" else if nokd > 0 then "+guards-some" else ""));
     Buffer.contents b
   | _ -> "bad-payload"
 
